@@ -4,9 +4,10 @@
 The real text of nnls_normal_block3 (the solver fitting uses), nnls_normal_block, cholesky_solve, modify_factor,
 modify_factor_p, walk_descents, evaluate_descent and calc_residual is extracted from src/fitter/nnls.c and
 src/fitter/cholesky_solve.c on every run, compiled by goto-cc and executed from CBMC's GOTO program over exact rationals (E3).
-cholmod is an ASSUMED CONTRACT: sparse/dense objects are exact matrices; a cholmod_factor is an abstract object
-'the factorisation of this symmetric matrix' (analyze/factorize/rowadd/rowdel/solve act on the matrix; recompute_factor,
-which works on cholmod's factor internals, is replaced by its documented effect; get_column runs as written on compressed-column arrays).
+cholmod is an ASSUMED CONTRACT: sparse/dense objects are exact matrices that also carry the compressed-column arrays get_column reads; a
+cholmod_factor is a simplicial LDL' factorisation held in the arrays (p, i, x, nz, next, ColCount, Perm) that photospline's recompute_factor reads and
+writes - what a factor means is always read back from those arrays; cholmod's own operations (analyze, analyze_p, factorize, change_factor,
+reallocate_column, rowadd, rowdel, solve) act on that matrix exactly.  recompute_factor and get_column therefore run as written.
 The worker threads of walk_descents are run to completion, one after the other, whenever the coordinator waits (the thread
 protocol itself is C12).
 
@@ -36,10 +37,11 @@ double vp_nan(void);
 #define assert(x) do { if (!(x)) vp_assert_fail(); } while (0)
 void vp_assert_fail(void);
 typedef struct cholmod_method_struct { int ordering; } vp_method;
-typedef struct cholmod_common_struct { int status; double fl, lnz, modfl; int nmethods; vp_method* method; /* an array member in cholmod; a pointer to ten entries here: the interpreter keeps one cell per struct member */ } cholmod_common;
+typedef struct cholmod_common_struct { int status; double fl, lnz, modfl; int nmethods, postorder; vp_method* method; /* an array member in cholmod; a pointer to ten entries here: the interpreter keeps one cell per struct member */ } cholmod_common;
 typedef struct cholmod_sparse_struct { size_t nrow, ncol, nzmax; void *p, *i, *nz, *x; int stype, packed, sorted; } cholmod_sparse;   /* the members photospline reads */
 typedef struct cholmod_dense_struct { size_t nrow, ncol; void* x; } cholmod_dense;
-typedef struct cholmod_factor_struct { size_t n; void* Perm; } cholmod_factor;
+typedef struct cholmod_factor_struct { size_t n; void *Perm, *ColCount, *p, *i, *x, *nz, *next; int xtype; } cholmod_factor;   /* the members photospline reads and writes (simplicial LDL') */
+#define CHOLMOD_PATTERN 0
 #define CHOLMOD_REAL 1
 #define CHOLMOD_A 0
 #define CHOLMOD_OK 0
@@ -62,7 +64,8 @@ cholmod_dense* cholmod_l_copy_dense(cholmod_dense*, cholmod_common*); int cholmo
 int cholmod_l_free_factor(cholmod_factor**, cholmod_common*); int cholmod_l_drop(double, cholmod_sparse*, cholmod_common*);
 cholmod_sparse* cholmod_l_submatrix(cholmod_sparse*, long*, long, long*, long, int, int, cholmod_common*);
 int cholmod_l_sdmult(cholmod_sparse*, int, double*, double*, cholmod_dense*, cholmod_dense*, cholmod_common*);
-cholmod_factor* cholmod_l_analyze(cholmod_sparse*, cholmod_common*); int cholmod_l_factorize(cholmod_sparse*, cholmod_factor*, cholmod_common*);
+cholmod_factor* cholmod_l_analyze(cholmod_sparse*, cholmod_common*); cholmod_factor* cholmod_l_analyze_p(cholmod_sparse*, long*, long*, size_t, cholmod_common*);
+int cholmod_l_change_factor(int, int, int, int, int, cholmod_factor*, cholmod_common*); int cholmod_l_reallocate_column(size_t, size_t, cholmod_factor*, cholmod_common*); int cholmod_l_factorize(cholmod_sparse*, cholmod_factor*, cholmod_common*);
 cholmod_dense* cholmod_l_solve(int, cholmod_factor*, cholmod_dense*, cholmod_common*);
 int cholmod_l_rowadd(size_t, cholmod_sparse*, cholmod_factor*, cholmod_common*); int cholmod_l_rowdel(size_t, cholmod_sparse*, cholmod_factor*, cholmod_common*);
 cholmod_dense* SuiteSparseQR_C_backslash_default(cholmod_sparse*, cholmod_dense*, cholmod_common*);
@@ -81,7 +84,7 @@ void evaluate_descent(void* trial_);
 int walk_descents(cholmod_sparse* AtA_F, cholmod_dense* Atb_F, cholmod_dense* x, cholmod_dense* x_F, long* F, long* nF_, long* H1, long* nH1_, double* residual, int* residual_calcs, int verbose, cholmod_common* c);
 '''
 NNLS_FUNCS = ("intcmp", "nnls_lawson_hanson", "nnls_normal_block", "nnls_normal_block_updown", "nnls_normal_block3")
-CHOL_FUNCS = ("double_rcmp", "get_column", "cholesky_solve", "modify_factor", "modify_factor_p", "calc_residual", "evaluate_descent", "walk_descents")
+CHOL_FUNCS = ("double_rcmp", "get_column", "recompute_factor", "cholesky_solve", "modify_factor", "modify_factor_p", "calc_residual", "evaluate_descent", "walk_descents")
 
 def build():
     """the translation unit: constants and the descent_trial type copied verbatim from the sources, then the functions as written"""
@@ -218,59 +221,133 @@ def install(it, nthreads, fl_mode):
         for (r, c), v in ent.items(): out[r] += al * v * xv[c]
         for i, v in enumerate(out): Yd["x"].obj.cells[i] = F(v)
         return 1
-    # ---- factor: the abstract object 'factorisation of the symmetric matrix M' (rows outside the factored set are identity rows)
+    # ---- factor: a simplicial LDL' factorisation kept in the arrays photospline's recompute_factor reads and writes (p, i, x, nz, next, ColCount, Perm).
+    # What a factor MEANS is always read back from those arrays: the matrix P'(L D L')P.  cholmod's own operations (assumed contract) are done on that matrix
+    # and the arrays rewritten.  A 'pattern' factor (after analyze / change_factor(PATTERN)) has Perm and ColCount only.
     def fac(p):
         if not isinstance(p, G.Ptr) or p.obj is None or id(p.obj) not in freg or not p.obj.live: raise G.MemError("cholmod call on a freed / foreign factor")
-        return freg[id(p.obj)]
+        return freg[id(p.obj)], p.obj.cells[0]
     def set_flops(c, n):
         cc = c.obj.cells[c.off]
         if fl_mode == "updates": cc["fl"] = F(10 ** 9); cc["lnz"] = F(1)          # the work estimate always prefers single-row updates
         elif fl_mode == "recompute": cc["fl"] = F(0); cc["lnz"] = F(n * (n + 1) // 2)  # ... never does (rank-1 changes still use them)
         else: cc["fl"] = F(n * n * n // 3 + 1); cc["lnz"] = F(n * (n + 1) // 2)
+    def permuted(ent, perm): n = len(perm); return [[ent.get((perm[i], perm[j]), Fr(0)) for j in range(n)] for i in range(n)]
+    def symbolic(Mp):
+        """structural pattern of L (rows below the diagonal per column) by symbolic elimination"""
+        n = len(Mp); pat = [set(i for i in range(j + 1, n) if Mp[i][j] != 0) for j in range(n)]
+        for j in range(n):
+            rows = sorted(pat[j])
+            for u in range(len(rows)):
+                for v in range(u + 1, len(rows)): pat[rows[u]].add(rows[v])
+        return [sorted(q) for q in pat]
+    def ldl(Mp):
+        n = len(Mp); L = [[Fr(0)] * n for _ in range(n)]; D = [Fr(0)] * n
+        for j in range(n):
+            D[j] = Mp[j][j] - sum(L[j][k] * L[j][k] * D[k] for k in range(j))
+            if D[j] <= 0: return None, None
+            for i in range(j + 1, n): L[i][j] = (Mp[i][j] - sum(L[i][k] * L[j][k] * D[k] for k in range(j))) / D[j]
+        return L, D
+    def store(d, Mp):
+        """write the LDL' factorisation of the (permuted) matrix into fresh arrays: monotonic, each column exactly as long as its pattern"""
+        n = len(Mp); L, D = ldl(Mp)
+        if L is None: raise G.ExecError("cholmod: matrix not positive definite")
+        pat = symbolic(Mp); pp = [0]; ii = []; xx = []; nzv = []
+        for j in range(n):
+            ii.append(j); xx.append(F(D[j]))
+            for r in pat[j]: ii.append(r); xx.append(F(L[r][j]))
+            nzv.append(1 + len(pat[j])); pp.append(len(ii))
+        nxt = [j + 1 for j in range(n)] + [-1, 0]                       # next[n] = tail, next[n+1] = head
+        d.update(p=G.Ptr(it.array("Lp", pp), 0), i=G.Ptr(it.array("Li", ii or [0]), 0), x=G.Ptr(it.array("Lx", xx or [F(0)]), 0), nz=G.Ptr(it.array("Lnz", nzv or [0]), 0), next=G.Ptr(it.array("Lnext", nxt), 0), xtype=1)
+        d["ColCount"].obj.cells[:n] = nzv
+    def load(f, d):
+        """the (permuted) matrix L D L' the arrays stand for"""
+        n = f["n"]
+        if d.get("xtype") != 1 or d["p"].obj is None: raise G.ExecError("numeric use of a factor that holds a pattern only")
+        pc, ic, xc, nzc = d["p"].obj.cells, d["i"].obj.cells, d["x"].obj.cells, d["nz"].obj.cells
+        L = [[Fr(0)] * n for _ in range(n)]; D = [None] * n
+        for j in range(n):
+            lo, cnt = pc[j], nzc[j]
+            if not (isinstance(lo, int) and isinstance(cnt, int) and cnt >= 1 and 0 <= lo and lo + cnt <= len(ic)): raise G.ExecError("factor column %d with unset / inconsistent pointers" % j)
+            if ic[lo] != j or xc[lo] is None: raise G.ExecError("factor column %d does not start with its diagonal entry" % j)
+            D[j] = xc[lo].num; seen_rows = set()
+            for q in range(lo + 1, lo + cnt):
+                r = ic[q]
+                if not isinstance(r, int) or xc[q] is None: raise G.ExecError("factor column %d has unset entries" % j)
+                if not j < r < n or r in seen_rows: raise G.ExecError("factor column %d has row %s (outside the lower triangle, or twice)" % (j, r))
+                seen_rows.add(r); L[r][j] = xc[q].num
+            if D[j] <= 0: raise G.ExecError("factor with a non-positive pivot")
+        for j in range(n): L[j][j] = Fr(1)
+        return [[sum(L[i][k] * D[k] * L[j][k] for k in range(min(i, j) + 1)) for j in range(n)] for i in range(n)]
+    def new_factor(n, perm, Mp_pattern, c):
+        o = it.new_obj("factor", 1); pat = symbolic(Mp_pattern)
+        o.cells[0] = dict(n=n, Perm=G.Ptr(it.array("Perm", list(perm) or [0]), 0), ColCount=G.Ptr(it.array("ColCount", [1 + len(q) for q in pat] or [0]), 0), p=G.NULL, i=G.NULL, x=G.NULL, nz=G.NULL, next=G.NULL, xtype=0)
+        freg[id(o)] = dict(n=n, perm=list(perm)); keep.append(o); set_flops(c, n); return G.Ptr(o, 0)
     def h_analyze(it_, a):
-        # a fill-reducing ordering is some permutation: identity, or the reversal (regime "updates"), so that the permutation handling of modify_factor_p is exercised
+        # a fill-reducing ordering is some permutation: identity, or the reversal (regime "updates"), so that the permutation handling of modify_factor_p / recompute_factor is exercised
         S, stp = get(a[0]); n = S.n; perm = list(range(n)) if fl_mode != "updates" else list(range(n - 1, -1, -1))
-        o = it.new_obj("factor", 1); o.cells[0] = dict(n=n, Perm=G.Ptr(it.array("Perm", perm or [0]), 0)); freg[id(o)] = dict(n=n, M=None, perm=perm); keep.append(o); set_flops(a[1], n); return G.Ptr(o, 0)
+        return new_factor(n, perm, permuted(full(S, stp), perm), a[1])
+    def h_analyze_p(it_, a):
+        S, stp = get(a[0]); n = S.n; perm = idx(a[1], n); st["recompute"] += 1            # only recompute_factor analyses with a given permutation
+        if sorted(perm) != list(range(n)): raise G.ExecError("cholmod_analyze_p: the user permutation is not a permutation")
+        if not (isinstance(a[2], G.Ptr) and a[2].obj is None): raise G.ExecError("cholmod_analyze_p with a column subset: not modelled")
+        return new_factor(n, perm, permuted(full(S, stp), perm), a[4])
     def h_factorize(it_, a):
-        S, stp = get(a[0]); f = fac(a[1]); st["factorize"] += 1
+        S, stp = get(a[0]); f, d = fac(a[1]); st["factorize"] += 1
         if stp == 0: raise G.ExecError("cholmod_factorize on an unsymmetric matrix factors A*A', not A")
         if S.n != f["n"]: raise G.ExecError("cholmod_factorize: the factor was analysed for another size")
-        ent = full(S, stp); M = [[ent.get((i, j), Fr(0)) for j in range(S.n)] for i in range(S.n)]
-        if not is_spd(M): raise G.ExecError("cholmod_factorize: matrix not positive definite")
-        f["M"] = M; return 1
-    # M is kept in the coordinates of the matrix; rowadd / rowdel receive positions in the factor's ordering
-    def h_rowdel(it_, a):
-        f = fac(a[2]); M = f["M"]; st["rowdel"] += 1
-        if M is None: raise G.ExecError("rowdel on a symbolic factor")
-        if not 0 <= a[0] < f["n"]: raise G.MemError("cholmod_rowdel: row outside the factor")
-        k = f["perm"][a[0]]
-        for j in range(f["n"]): M[k][j] = M[j][k] = Fr(0)
-        M[k][k] = Fr(1); return 1
-    def h_rowadd(it_, a):
-        f = fac(a[2]); M = f["M"]; S, stp = get(a[1]); st["rowadd"] += 1
-        if M is None: raise G.ExecError("rowadd on a symbolic factor")
-        if not 0 <= a[0] < f["n"]: raise G.MemError("cholmod_rowadd: row outside the factor")
-        if S.n != f["n"] or S.m != 1: raise G.ExecError("cholmod_rowadd: the new row must be n-by-1")
-        k = f["perm"][a[0]]
-        if any(M[k][j] != (1 if j == k else 0) for j in range(f["n"])): raise G.ExecError("cholmod_rowadd: row %d of the factor is not an identity row" % k)
-        for (r, c), v in S.ent.items(): M[k][f["perm"][r]] = M[f["perm"][r]][k] = v
-        if not is_spd(M): raise G.ExecError("cholmod_rowadd: updated matrix not positive definite")
+        store(d, permuted(full(S, stp), f["perm"])); return 1
+    def h_change_factor(it_, a):
+        to_xtype, to_ll, to_super, to_packed, to_mono = a[:5]; f, d = fac(a[5]); n = f["n"]
+        if to_ll or to_super: raise G.ExecError("change_factor to LL' / supernodal: not modelled")
+        if to_xtype == 0: d.update(p=G.NULL, i=G.NULL, x=G.NULL, nz=G.NULL, next=G.NULL, xtype=0); return 1
+        if to_xtype != 1: raise G.ExecError("change_factor to an unexpected type")
+        if d.get("xtype") == 1: return 1                                    # already simplicial numeric LDL'
+        cc = d["ColCount"].obj.cells[:n]
+        if any(not isinstance(v, int) or v < 1 for v in cc): raise G.ExecError("change_factor: column counts unset or below 1")
+        pp = [0]
+        for j in range(n): pp.append(pp[-1] + cc[j])
+        ii = [None] * pp[-1]; xx = [None] * pp[-1]
+        for j in range(n): ii[pp[j]] = j; xx[pp[j]] = F(1)
+        d.update(p=G.Ptr(it.array("Lp", pp), 0), i=G.Ptr(it.array("Li", ii or [0]), 0), x=G.Ptr(it.array("Lx", xx or [F(0)]), 0), nz=G.Ptr(it.array("Lnz", [1] * n or [0]), 0),
+                 next=G.Ptr(it.array("Lnext", [j + 1 for j in range(n)] + [-1, 0]), 0), xtype=1)
         return 1
-    def h_recompute(it_, a):
-        # assumed (documented effect): L becomes the factorisation of A[F,F] embedded in the identity, in L's ordering
-        S, stp = get(a[0]); f = fac(a[1]); Fs = idx(a[3], a[4]); ent = full(S, stp); n = f["n"]; st["recompute"] += 1
-        M = [[Fr(1) if i == j else Fr(0) for j in range(n)] for i in range(n)]
-        for i in Fs:
-            for j in Fs: M[i][j] = ent.get((i, j), Fr(0))
-        if not is_spd(M): raise G.ExecError("recompute_factor: matrix not positive definite")
-        f["M"] = M; set_flops(a[5], n); return a[1]
+    def h_realloc_col(it_, a):
+        j, need = a[0], a[1]; f, d = fac(a[2]); n = f["n"]; pc, nxt, nzc = d["p"].obj.cells, d["next"].obj.cells, d["nz"].obj.cells
+        if not 0 <= j < n: raise G.MemError("reallocate_column outside the factor")
+        oi, ox = d["i"].obj.cells, d["x"].obj.cells; end = pc[n]; keepn = nzc[j]
+        if need < keepn: raise G.ExecError("reallocate_column below the current length of the column")
+        ni = list(oi) + [None] * need; nx = list(ox) + [None] * need
+        ni[end:end + keepn] = oi[pc[j]:pc[j] + keepn]; nx[end:end + keepn] = ox[pc[j]:pc[j] + keepn]
+        d["i"] = G.Ptr(it.array("Li", ni), 0); d["x"] = G.Ptr(it.array("Lx", nx), 0)
+        # unlink j and append it before the tail
+        prev = next((q for q in list(range(n)) + [n + 1] if nxt[q] == j), None)
+        if prev is None: raise G.ExecError("reallocate_column: column not in the list")
+        if nxt[j] != n:
+            nxt[prev] = nxt[j]; last = next(q for q in list(range(n)) + [n + 1] if nxt[q] == n); nxt[last] = j; nxt[j] = n
+        pc[j] = end; pc[n] = end + need; return 1
+    # rowadd / rowdel receive positions in the factor's ordering
+    def h_rowdel(it_, a):
+        f, d = fac(a[2]); st["rowdel"] += 1; Mp = load(f, d); k = a[0]
+        if not 0 <= k < f["n"]: raise G.MemError("cholmod_rowdel: row outside the factor")
+        for j in range(f["n"]): Mp[k][j] = Mp[j][k] = Fr(0)
+        Mp[k][k] = Fr(1); store(d, Mp); return 1
+    def h_rowadd(it_, a):
+        f, d = fac(a[2]); S, stp = get(a[1]); st["rowadd"] += 1; Mp = load(f, d); k = a[0]
+        if not 0 <= k < f["n"]: raise G.MemError("cholmod_rowadd: row outside the factor")
+        if S.n != f["n"] or S.m != 1: raise G.ExecError("cholmod_rowadd: the new row must be n-by-1")
+        if any(Mp[k][j] != (1 if j == k else 0) for j in range(f["n"])): raise G.ExecError("cholmod_rowadd: row %d of the factor is not an identity row" % k)
+        for (r, c), v in S.ent.items(): Mp[k][r] = Mp[r][k] = v
+        if ldl(Mp)[0] is None: raise G.ExecError("cholmod_rowadd: updated matrix not positive definite")
+        store(d, Mp); return 1
     def h_solve(it_, a):
-        f = fac(a[1]); B = dense(a[2]); st["solves"] += 1
+        f, d = fac(a[1]); B = dense(a[2]); st["solves"] += 1; n = f["n"]
         if a[0] != 0: raise G.ExecError("cholmod_solve: only CHOLMOD_A is modelled")
-        if f["M"] is None: raise G.ExecError("cholmod_solve with a symbolic factor")
-        if B["nrow"] != f["n"]: raise G.ExecError("cholmod_solve: right-hand side has %d rows, the factor %d" % (B["nrow"], f["n"]))
-        x = solve_exact(f["M"], dvals(B))
-        return new_dense(f["n"], 1, [F(v) for v in x])
+        if B["nrow"] != n: raise G.ExecError("cholmod_solve: right-hand side has %d rows, the factor %d" % (B["nrow"], n))
+        Mp = load(f, d); perm = f["perm"]; bv = dvals(B)
+        xp = solve_exact(Mp, [bv[perm[i]] for i in range(n)]); x = [None] * n
+        for i in range(n): x[perm[i]] = xp[i]
+        return new_dense(n, 1, [F(v) for v in x])
     def h_qr(it_, a):
         # assumed: SuiteSparseQR backslash returns the least-squares solution of a full-column-rank system (exact: normal equations)
         S, stp = get(a[0]); ent = full(S, stp); B = dense(a[1]); bv = dvals(B); st["solves"] += 1
@@ -361,7 +438,7 @@ def install(it, nthreads, fl_mode):
     it.hooks.update(cholmod_l_zeros=lambda it_, a: new_dense(a[0], a[1], [F(0)] * (a[0] * a[1])), cholmod_l_allocate_dense=lambda it_, a: new_dense(a[0], a[1], [None] * (a[0] * a[1])),
                     cholmod_l_copy_dense=lambda it_, a: new_dense(dense(a[0])["nrow"], dense(a[0])["ncol"], dense(a[0])["x"].obj.cells[:dense(a[0])["nrow"] * dense(a[0])["ncol"]]),
                     cholmod_l_free_dense=h_free, cholmod_l_free_sparse=h_free, cholmod_l_free_factor=h_free, cholmod_l_drop=h_drop, cholmod_l_submatrix=h_submatrix, cholmod_l_sdmult=h_sdmult,
-                    cholmod_l_analyze=h_analyze, cholmod_l_factorize=h_factorize, cholmod_l_solve=h_solve, cholmod_l_rowadd=h_rowadd, cholmod_l_rowdel=h_rowdel, cholmod_l_allocate_sparse=h_allocate_sparse, recompute_factor=h_recompute,
+                    cholmod_l_analyze=h_analyze, cholmod_l_factorize=h_factorize, cholmod_l_solve=h_solve, cholmod_l_rowadd=h_rowadd, cholmod_l_rowdel=h_rowdel, cholmod_l_allocate_sparse=h_allocate_sparse, cholmod_l_analyze_p=h_analyze_p, cholmod_l_change_factor=h_change_factor, cholmod_l_reallocate_column=h_realloc_col,
                     qsort=h_qsort, memcpy=h_memcpy, malloc=lambda it_, a: G.Ptr(it_.new_obj("malloc", max(a[0], 1)), 0), realloc=h_realloc, free=h_free_libc, printf=ok, clock=ok,
                     ceil=lambda it_, a: F(-((-a[0].num.numerator) // a[0].num.denominator)), get_nthreads=lambda it_, a: nthreads, vp_nan=lambda it_, a: "nan",
                     sched_setaffinity=ok, pthread_attr_init=ok, pthread_attr_setdetachstate=ok, pthread_attr_destroy=h_destroy, pthread_mutex_init=ok, pthread_cond_init=ok, pthread_mutex_destroy=ok,
@@ -433,7 +510,7 @@ def solve_with(solver, A, b, nthreads=1, fl_mode="default"):
     mk, st = install(it, nthreads, fl_mode)
     S = mk(Sp(n, n, {(i, j): A[i][j] for i in range(n) for j in range(n) if A[i][j] != 0}), 0)
     o = it.new_obj("dense", 1); o.cells[0] = dict(nrow=n, ncol=1, x=G.Ptr(it.array("Atb", [F(v) for v in b]), 0))
-    cc = it.array("common", [dict(status=0, fl=F(0), lnz=F(0), modfl=F(0), nmethods=9, method=G.Ptr(it.array("methods", [dict(ordering=q) for q in range(10)]), 0))])
+    cc = it.array("common", [dict(status=0, fl=F(0), lnz=F(0), modfl=F(0), nmethods=9, postorder=1, method=G.Ptr(it.array("methods", [dict(ordering=q) for q in range(10)]), 0))])
     if solver == "cholesky_solve": r = it.call(solver, [S, G.Ptr(o, 0), G.Ptr(cc, 0), 0, nthreads - 1])       # (AtA, Atb, c, verbose, n_resolves)
     else: r = it.call(solver, [S, G.Ptr(o, 0), 0, G.Ptr(cc, 0)])
     return [v.num for v in r.obj.cells[0]["x"].obj.cells[:n]]
@@ -451,7 +528,7 @@ def run_case(args):
         mk, st = install(it, nthreads, fl_mode)
         S = mk(Sp(n, n, {(i, j): A[i][j] for i in range(n) for j in range(n) if A[i][j] != 0}), 0)
         o = it.new_obj("dense", 1); o.cells[0] = dict(nrow=n, ncol=1, x=G.Ptr(it.array("Atb", [F(v) for v in b]), 0)); B = G.Ptr(o, 0)
-        cc = it.array("common", [dict(status=0, fl=F(0), lnz=F(0), modfl=F(0), nmethods=9, method=None)])
+        cc = it.array("common", [dict(status=0, fl=F(0), lnz=F(0), modfl=F(0), nmethods=9, postorder=1, method=None)])
         cm = it.array("methods", [dict(ordering=q) for q in range(10)])
         cc.cells[0]["method"] = G.Ptr(cm, 0)
         try:
@@ -589,7 +666,9 @@ def main():
     flat = [o for r in res for o in r if not o[0].split(": ", 1)[1].startswith("O0")]
     bylabel = {(c[0], c[3]): c for c in cases}; native = {}
     def replay(tagged):
-        """the same system handed to the real solver (double arithmetic, real cholmod)"""
+        """the same system handed to the real solver (double arithmetic, real cholmod); at most 16 native replays per run"""
+        native["n"] = native.get("n", 0) + 1
+        if native["n"] > 17: return dict(replayed=False, note="only the first 16 violations of a run are replayed natively")
         m = re.match(r"(.*?) \[(\w+)[,/]", tagged)
         if not m or (m.group(1), m.group(2)) not in bylabel: return None
         if "exe" not in native:
@@ -604,7 +683,7 @@ def main():
         return dict(replayed=(rc == 1), input="replay_nnls %s %d %s" % (solver, len(A), argsv), observed=("exit %d\n" % rc) + out[-1500:], command="tools/replay/replay_nnls.c linked with src/fitter/{nnls,cholesky_solve,splineutil}.c and the real cholmod")
     for name, sel in (("C11-block3", "nnls_normal_block3"), ("C11-block", "[nnls_normal_block,"), ("C11-updown", "[nnls_normal_block_updown,"), ("C11-lawson-hanson", "[nnls_lawson_hanson")):
         grp = [o for o in flat if sel in o[0]]
-        rep.add_group("E3-rational (exact execution of the GOTO program; cholmod and recompute_factor as assumed contracts; workers run to completion)", len(grp), sum(1 for o in grp if o[1]),
+        rep.add_group("E3-rational (exact execution of the GOTO program; cholmod as assumed contract; workers run to completion)", len(grp), sum(1 for o in grp if o[1]),
                       time.time() - t0, bounded="%d symmetric positive-definite systems, 1..%d unknowns; 1-3 workers; three work-estimate regimes of modify_factor" % (len(sysl), max(len(s[1]) for s in sysl)), name=name)
         for o in grp:
             if not o[1]: rep.add_violation(name, re.sub(r"[^\w\-\+\.\[\],:#]", "_", o[0])[:200], o[0] + ": " + o[2], trace=o[2], replay=replay(o[0]))
@@ -656,7 +735,7 @@ def main():
     rep.samples.append("paths exercised: %s" % tot)
     rep.assume("PARTIAL and BOUNDED: decided for nnls_normal_block3 (the solver fitting uses), nnls_normal_block, nnls_normal_block_updown and nnls_lawson_hanson (normal-equation and least-squares form, tolerance 1e-9, no iteration cap) on the enumerated systems only",
                "cholmod (submatrix, sdmult, drop, analyze, factorize, rowadd, rowdel, solve) and SuiteSparseQR's backslash (least-squares solution of a full-column-rank system) are an assumed contract: exact sparse algebra, a factor is the factorisation of its matrix",
-               "recompute_factor (it works inside cholmod's simplicial factor arrays) is replaced by its documented effect: NOT verified; get_column runs as written on the compressed-column arrays of the matrix",
+               "recompute_factor and get_column run as written: a cholmod_factor is a simplicial LDL' factorisation kept in the arrays (p, i, x, nz, next, ColCount, Perm) that recompute_factor reads and writes, a cholmod_sparse carries its compressed-column arrays; cholmod's own operations on them (analyze, analyze_p, factorize, change_factor, reallocate_column, rowadd, rowdel, solve) are the assumed contract",
                "the worker threads of walk_descents are run to completion one after the other when the coordinator waits (protocol: C12)",
                "machine arithmetic treated as mathematical: every decision of the solvers is taken on exact rationals; rounding and conditioning are not modelled, except that nnls_normal_block3 is also run with noise of size 2^-53 * |operand| and either sign at every exact cancellation (a test of robustness, not a model of IEEE arithmetic)",
                "qsort: the comparator of the source is called on the elements; intcmp reads long elements through int pointers (values < 2^31)",
